@@ -62,6 +62,8 @@ static long read_hunk_header(FILE *in)
     //uint32_t size = read_int32(in);
     read_int32(in);
 
+    if (feof(in)) { break; }
+
     //printf("         len=%d\n", size);
   }
 
@@ -115,6 +117,13 @@ int read_amiga(const char *filename, Memory *memory)
   while (running == 1)
   {
     uint32_t hunk_type = read_int32(in);
+
+    // The file ended without a code hunk.
+    if (feof(in))
+    {
+      fclose(in);
+      return -1;
+    }
 
     long marker = ftell(in);
 
